@@ -315,6 +315,9 @@ Definition w_p : list nat := [1; 1; 1].
 Definition w_D : dmat QcS := split w_A w_p w_p.
 Definition w_kept : dobj QcS := move_to_backend true (construct w_D).
 Definition w_inpl : dobj QcS := move_to_backend_inplace true (construct w_D).
+(* what the in-place variant leaves behind local()/remote(): the remote parts carry ghost ids *)
+Definition w_D' : dmat QcS :=
+  mkDmat w_p (map (fun M => mkRankMat (rm_loc M) (renumber (rem_cols M) (rm_rem M))) (dm_ranks w_D)).
 Definition rem_colss {S : Scalar} (D : dmat S) : list (list (list nat)) :=
   map (fun M => map (map fst) (rows (rm_rem M))) (dm_ranks D).
 
@@ -324,7 +327,7 @@ Theorem inplace_renumbering_refuted :
   (* the in-place variant: products and residuals are unaffected ... *)
   (forall alpha xs beta ys, obj_spmv alpha w_inpl xs beta ys = map Some (dist_spmv alpha w_D xs beta ys)) /\
   (* ... but what local()/remote() return afterwards is another matrix (ghost ids instead of global columns) *)
-  exists D', source w_inpl = Some D' /\ D' <> w_D /\
+  let D' := w_D' in source w_inpl = Some D' /\ D' <> w_D /\
     rem_colss w_D = [[[2]]; [[0; 2]]; [[1]]] /\ rem_colss D' = [[[0]]; [[0; 1]]; [[0]]] /\
     (* every consumer of the source is wrong: transpose, product (left and right operand), the rows shipped by
        remote_rows, and the copy to another backend refers to a column that idx does not know (idx.at throws) *)
@@ -340,7 +343,7 @@ Proof.
   { intros. unfold w_inpl. rewrite inplace_spmv_same. apply moved_spmv_is_source_spmv. apply split_ranks_length. }
   assert (Hne : forall a b : QcS, seqb a b = false -> a <> b).
   { intros a b H E. apply (proj2 (QcS_eqb a b)) in E. rewrite E in H. discriminate. }
-  eexists. split; [vm_compute; reflexivity|].
+  intro D'. subst D'. split; [vm_compute; reflexivity|].
   split; [intro E; apply (f_equal rem_colss) in E; vm_compute in E; discriminate|].
   split; [vm_compute; reflexivity|]. split; [vm_compute; reflexivity|].
   split; [apply Hne; vm_compute; reflexivity|].
